@@ -5,6 +5,7 @@ import metricgen as mg
 import regen as regen_mod
 from common import Driver, f2b, b2f, close
 
+REGEN = ("constants", "registry", "distsrc")
 
 
 def metric_line(drv, name, x, y, extra):
@@ -73,6 +74,13 @@ def run(ctx):
     ctx.assumptions += ["float rounding not verified: real-valued metrics compared at rel 1e-7 (1e-5 where the code uses float32 internally)",
                         "the identity clause for hellinger / poincare / cosine / correlation allows the 2e-4 (ll_dirichlet, whose self "
                         "terms use a Stirling approximation: 2e-3) that sqrt / arccosh amplify from a rounding-size argument"]
+    # the translated kernels (what the `*_src` theorems are about) against the Python source itself
+    import srcval
+    import translate
+    srcval.validate(ctx, translate.DIST_FUNCS, 200 if ctx.thorough else 25, rng)
+    ctx.assumptions.append("the AST -> Lean translator (harness/translate.py) is validated on every run by executing its output "
+                           "(srcdrv) against the Python source (.py_func) on generated inputs; the `*_src` theorems tie its output "
+                           "to the hand-written model for all inputs")
     drv = Driver()
     pend = []
     # exhaustive binary
